@@ -148,7 +148,8 @@ fn order_laws<T: PartialOrd + PartialEq + Clone + ohsl::traits::Number + std::fm
 }
 
 fn gen_f(src: &mut Src) -> f64 {
-    match src.below(8) {
+    match src.below(9) {
+        8 => -0.0, // what conj() / negation of a purely real number produces
         0 => 0.0,
         1 => src.small_int(9) as f64,
         2 => gen::f64_log(src, -100.0, 100.0),
@@ -313,7 +314,7 @@ impl Prop for C13 {
     fn rule(&self) -> String {
         "triples z, w, v of complex numbers and real scalars r: (a) components from a menu of small rationals (purely real / purely imaginary operands with probability 1/6 each): \
          +, -, *, /, neg, conj, abs_sqr, the four mixed complex/real forms and all eight compound assignments compared exactly with independently coded Gaussian-rational field formulas, \
-         plus (z/w)w = z, distributivity, associativity, commutativity, z conj z = abs_sqr, zero/one identities; (b) f64 components in {0, small integers, +-10^[-100,100], +-10^[-10,10], +-10^[-3,3]}: \
+         plus (z/w)w = z, distributivity, associativity, commutativity, z conj z = abs_sqr, zero/one identities; (b) f64 components in {+0, -0, small integers, +-10^[-100,100], +-10^[-10,10], +-10^[-3,3]}: \
          + and - single roundings, * within 4 eps and / within 8 eps of the double-double value relative to the sum of absolute values of the terms of the component, abs_sqr within 2 eps, abs within 3 eps of hypot, arg within 2 eps of atan2, \
          mixed real forms exact single roundings, f64*z == z*f64 bitwise, all compound assignments bit-identical to the binary forms; (both) exactly one of <,==,>, lexicographic, antisymmetric, transitive on the triple, == consistent with partial_cmp. \
          Non-trivial: all four components of z and w non-zero and pairwise different. distinct = distinct decoded choice sequence."
